@@ -1,24 +1,36 @@
+import os
 ID = 'C05'
 PARSE = '_ZN5phosg4JSON5parseERNS_12StringReaderEb'
 SKIPWS = '_ZN5phosgL28skip_whitespace_and_commentsERNS_12StringReaderEb'
 # std::variant<...>::_M_reset visitor = the recursive part of ~JSON (list/dict members are JSON objects again)
 RESET = '_ZSt10__do_visitIvZNSt8__detail9__variant16_Variant_storageILb0EJDnbldNSt7__cxx1112basic_stringIcSt11char_traitsIcESaIcEEESt6vectorISt10unique_ptrIN5phosg4JSONESt14default_deleteISC_EESaISF_EESt13unordered_mapIS8_SF_vvvEEE8_M_resetEvEUlOT_E_JRSt7variantIJDnbldS8_SH_SJ_EEEEDcOT0_DpOT1_'
 REALLOC = '_ZNSt6vectorISt10unique_ptrIN5phosg4JSONESt14default_deleteIS2_EESaIS5_EE17_M_realloc_insertIJPS2_EEEvN9__gnu_cxx17__normal_iteratorIPS5_S7_EEDpOT_'
-# message builders of thrown exceptions (text never influences results): cut out of the generated C, bodies in json_cuts.h
+# builders of exception MESSAGES (text never influences a result or a thrown type): cut out of the generated C, empty-string
+# bodies in json_cuts.h. Only value_for_hex_char's message builder is reached by the tiered queries.
 CUTS = [r'^_ZNSt7__cxx119to_stringEm$', r'^_ZStplIcSt11char_traitsIcESaIcEENSt7__cxx1112basic_stringIT_T0_T1_EEPKS5_OS8_$',
         r'^_ZNSt7__cxx1112basic_stringIcSt11char_traitsIcESaIcEEC2IS3_EEPKcRKS3_$', r'^_ZN5phosg13string_printfB5cxx11EPKcz$']
-UNITS = {'json': dict(wrap='wrap.cc', shim=True, new_block=96, cxxflags=['-DVERIF_UMAP_CAP=2'], cuts=CUTS, ir2c_flags=['--union-fp-bytes']),
-         'jsonpd': dict(wrap='wrap.cc', shim=True, new_block=96, cxxflags=['-DVERIF_UMAP_CAP=2'], cuts=CUTS, ir2c_flags=['--union-fp-bytes', '--ptrdiff'])}
-BOUNDS = ''
-STUBS = []
-OUTSIDE = []
-ASSUMPTIONS = []
+UNITS = {'json': dict(wrap='wrap.cc', shim=True, new_block=96, cxxflags=['-DVERIF_UMAP_CAP=2'], cuts=CUTS, ir2c_flags=['--union-fp-bytes'])}
+
+BOUNDS = ('skip_whitespace_and_comments: every input of length 0..6 (quick) / 0..8 (thorough) over all 256 byte values, both modes; '
+          'StringReader get_s8 / pget_s8 / eof / skip_if: buffers of 0..6 bytes, every start offset 0..LEN, pget offsets 0..LEN+1, '
+          'literal lengths 1, 4, 5 (the lengths JSON::parse uses) with symbolic literal bytes; value_for_hex_char: all 256 bytes. '
+          'Loops unwound to LEN+3 with unwinding assertions.')
+STUBS = ['message builders cut to empty strings (json_cuts.h): phosg::string_printf (only use reached: the text of the out_of_range thrown by value_for_hex_char); '
+         'std::to_string(unsigned long), operator+(const char*, std::string&&), std::string(const char*) (only reached by the whole-parse probes)',
+         'engine/shim/unordered_map (fixed capacity 2) replaces std::unordered_map in the translated TU; not reached by the tiered queries']
+OUTSIDE = ['JSON::parse as a whole (all three entry points): totality / exception types on arbitrary bytes, acceptance and values of standard documents in '
+           'both modes, strict-mode rejection of the four extensions, extent consumed by the reader entry point, trailing-garbage rejection, nesting up to 500. '
+           'Measured (16 cores, cbmc 6.11, message builders cut, unordered_map shim, recursion bounded by the number of brackets): fully symbolic input of '
+           'LENGTH 1 (2 modes): symbolic execution 7-8 min, then the SAT back end exceeds 10 GB during propositional reduction (also with --slice-formula); '
+           'length 2: 13-17 min symbolic execution, >10 GB; "[" + one symbolic byte: no verdict in 1500 s. Reproduce with C05_PROBES=1 (queries probe_*).',
+           'therefore NOT decided here, although seen by reading and reproduced natively (NOTES.md): strict mode rejects [] and {}; numerals with an exponent but '
+           'no fraction are ints (5e-1 -> 0, 1e+20 -> overflowed int); a non-string dictionary key escapes as JSON::type_error; signed overflow on INT64_MIN',
+           'offsets near 2^64 in StringReader::pget (offset+size wraps): not reachable from JSON::parse (it only forms where()+1 <= size); subject of C02']
+ASSUMPTIONS = ['the kernels are the only routes by which JSON::parse touches its input: StringReader::get_s8/pget_s8/eof/skip_if/go/where (by reading JSON.cc:19-258)']
 
 
 def parse_unwindset(L, NB, elems=None):
-    """global --unwind 8 covers the constant 7-way std::variant index loops; the data-dependent loops get exact bounds:
-    recursion depth of parse() and of ~JSON = NB+1 (each level consumes one '[' or '{'), scanning loops <= L+1 bytes,
-    exponent loops <= 9 (harness bound), container member loops <= elems"""
+    """whole-parse probes: global --unwind 8 covers the constant 7-way std::variant index loops; data-dependent loops get exact bounds"""
     if elems is None:
         elems = max(1, (L - 1) // 2) if NB else 0
     u = ['%s:%d' % (PARSE, NB + 1), '%s:%d' % (RESET, NB + 1)]
@@ -32,10 +44,10 @@ def parse_unwindset(L, NB, elems=None):
 
 def queries(tier):
     qs = []
-    for L in range(0, 7):
-        qs.append(dict(name='skipws_len%d' % L, unit='json', harness='h_skipws.c', defs={'LEN': L}, unwind=L + 3, timeout=300, mem_gb=3,
-                       desc='skip_whitespace_and_comments on %d symbolic bytes, symbolic mode: no exception, stops where the reference scanner stops' % L,
-                       bounds='input length == %d, all byte values' % L))
+    for L in (range(0, 7) if tier == 'quick' else range(0, 9)):
+        qs.append(dict(name='skipws_len%d' % L, unit='json', harness='h_skipws.c', defs={'LEN': L}, unwind=L + 3, timeout=600, mem_gb=4,
+                       desc='skip_whitespace_and_comments on %d symbolic bytes, symbolic mode: stops exactly where the reference scanner stops; only out_of_range may escape (lone trailing /)' % L,
+                       bounds='input length == %d, all byte values, both modes' % L))
     for op, nm in ((0, 'peek'), (1, 'get'), (2, 'pget'), (3, 'eof')):
         for L in ([0, 1, 3] if tier == 'quick' else [0, 1, 2, 3, 6]):
             qs.append(dict(name='reader_%s_len%d' % (nm, L), unit='json', harness='h_reader.c', defs={'OP': op, 'LEN': L}, unwind=L + 3, timeout=300, mem_gb=3,
@@ -47,17 +59,14 @@ def queries(tier):
                        bounds='buffer length == %d, literal length == %d' % (L, K)))
     qs.append(dict(name='hex_char', unit='json', harness='h_reader.c', defs={'OP': 5, 'LEN': 0}, unwind=26, timeout=300, mem_gb=3,
                    desc='value_for_hex_char on all 256 byte values', bounds='all 256 values'))
-    qs.append(dict(name='slice_len1_nb0', unit='json', harness='h_probe.c', defs={'LEN': 1, 'NB': 0}, unwind=8, flags=['--slice-formula'],
-                           unwindset=parse_unwindset(1, 0), object_bits=12, timeout=1500, mem_gb=10, desc='parse', bounds=''))
-    for f in (91, 123):
-        qs.append(dict(name='first%d_len2' % f, unit='json', harness='h_probe.c', defs={'LEN': 2, 'NB': 1, 'FIRST': f}, unwind=8,
-                           unwindset=parse_unwindset(2, 1), object_bits=12, timeout=1500, mem_gb=10, desc='parse', bounds=''))
-    for L in (1, 2, 3):
-        for NB in (0, 1):
-            qs.append(dict(name='totalpd_len%d_nb%d' % (L, NB), unit='jsonpd', harness='h_probe.c', defs={'LEN': L, 'NB': NB}, unwind=8,
-                           unwindset=parse_unwindset(L, NB), object_bits=12, timeout=1500, mem_gb=10,
-                           desc='parse', bounds=''))
-            qs.append(dict(name='total_len%d_nb%d' % (L, NB), unit='json', harness='h_probe.c', defs={'LEN': L, 'NB': NB}, unwind=8,
-                           unwindset=parse_unwindset(L, NB), object_bits=12, timeout=1500, mem_gb=10,
-                           desc='parse', bounds=''))
+    if os.environ.get('C05_PROBES'):
+        # measurement only (see OUTSIDE): whole JSON::parse on fully symbolic bytes. None of these returned a verdict.
+        for L, NB in ((1, 0), (2, 0), (2, 1)):
+            qs.append(dict(name='probe_total_len%d_nb%d' % (L, NB), unit='json', harness='h_probe.c', defs={'LEN': L, 'NB': NB}, unwind=8,
+                           unwindset=parse_unwindset(L, NB), object_bits=12, timeout=1500, mem_gb=10, tv=False,
+                           desc='whole JSON::parse totality probe', bounds='input length %d, <= %d brackets' % (L, NB)))
+        qs.append(dict(name='probe_first91_len2', unit='json', harness='h_probe.c', defs={'LEN': 2, 'NB': 1, 'FIRST': 91}, unwind=8,
+                       unwindset=parse_unwindset(2, 1), object_bits=12, timeout=1500, mem_gb=10, tv=False, desc='"[" + one symbolic byte', bounds=''))
+        qs.append(dict(name='probe_parse_len2_nb0', unit='json', harness='h_parse.c', defs={'LEN': 2, 'NB': 0}, unwind=8,
+                       unwindset=parse_unwindset(2, 0), object_bits=12, timeout=1500, mem_gb=10, tv=False, desc='reference-reader harness', bounds=''))
     return qs
